@@ -288,7 +288,7 @@ def case_multi(ctx, i):
         else:
             l, k = gen.rand_leg(rng, chinfo, max_blocks=3, max_bs=2)
             desc.append(k)
-        if size * max(l.ind_len, 1) > 150:
+        if not (size * max(l.ind_len, 1) <= 150):
             continue
         size *= max(l.ind_len, 1)
         legs.append(l)
